@@ -130,8 +130,14 @@ def quiet_stderr():
         sys.stderr = old
 
 
+def rpath(rname):
+    """The documented third way of naming a renderer: the path of its package."""
+    import plasTeX
+    return os.path.join(os.path.dirname(os.path.abspath(plasTeX.__file__)), "Renderers", rname)
+
+
 def rmod(rname):
-    if rname == "HTML5":
+    if rname == "HTML5" or rname.endswith(os.sep + "HTML5"):
         import plasTeX.Renderers.HTML5 as m
     else:
         import plasTeX.Renderers.XHTML as m
@@ -630,6 +636,10 @@ def make_roundtrip(tier):
         # with two savers: the second renderer renders the document object the first one rendered
         # (instead of a fresh parse of the same source)
         "reuse": st.sampled_from([False, False, True]),
+        # the renderer is named by the path of its package (same name for saving and restoring)
+        "aspath": st.sampled_from([False, False, False, True]),
+        # a third document defines a label named like the k-th label of D1
+        "collide": st.sampled_from([None, None, 0, 1, 5]),
         "pauxdir": st.sampled_from([False, False, True])})
 
 
@@ -649,6 +659,9 @@ def check_roundtrip(case):
         feats.add("math-in-labelled-title")
     if case["pauxdir"]:
         feats.add("paux-dirs")
+    if case.get("aspath"):
+        feats.add("renderer-named-by-path")
+        savers, reader = [rpath(r) for r in savers], rpath(reader)
     with casedir() as top:
         d1 = os.path.join(top, "one")
         d2 = os.path.join(top, "two") if case["pauxdir"] else d1
@@ -763,6 +776,33 @@ def check_roundtrip(case):
         after = pm.decode(read_file(path))
         if pm.canon(after) != pm.canon(state):
             return fail("other-document-file-changed", {"phase": "run2"}, feats)
+        # ---- run 3: a third document defines a label named like one it restored from D1; its own file
+        # ---- lists that label (with the values rendered for D3), so that a fourth document can restore it
+        if labels and case.get("collide") is not None:
+            feats.add("own-label-named-like-a-restored-one")
+            lab = labels[case["collide"] % len(labels)]
+            with open("D3.tex", "w", encoding="utf-8") as f:
+                f.write(pm.refs_doc([], own=lab))
+            config = mkconfig(reader, [d1] if d2 != d1 else None)
+            with quiet_stderr():
+                tex, err = call_real(plasTeX.Compile.parse, "D3.tex", config)
+            if err is not None:
+                if err.where.endswith(":restore"):
+                    return fail("restore-raise:" + state_cause(state, reader), err.detail(), feats)
+                return fail("parse-raise:%s@%s" % (err.type, err.where), err.detail(), feats)
+            doc3 = tex.ownerDocument
+            box, err = render_doc(None, reader, "D3", document=doc3)
+            if err is not None:
+                return render_failure(box, err, pm.MISSING, reader, feats)
+            own3 = pm.decode(read_file(os.path.join(d2, "D3.paux")))
+            bad = pm.check_resaved(pm.MISSING, own3, reader, box["cap"], True)
+            if bad is not None:
+                return fail(bad[0], dict(bad[1], phase="run3-save"), feats)
+            table3 = own3[1].get(reader) if own3[0] == "ok" and isinstance(own3[1], dict) else None
+            if not isinstance(table3, dict) or sorted(table3) != [lab]:
+                return fail("resave-label-lost:own-label-named-like-restored",
+                            {"phase": "run3-save", "label": lab, "expected": [lab],
+                             "saved": sorted(map(repr, table3)) if isinstance(table3, dict) else repr(table3)}, feats)
     nt = len(exp) >= 3 and len(savers) == 2
     return ok(sorted(feats), nt)
 
@@ -997,9 +1037,10 @@ class Machine(HistoryMachine):
 RULE_RT = ("label sets of 0-12 objects (section/subsection/equation/two \\newtheorem environments/figure with "
            "caption/paragraph; ~5/6 labelled; titles of 1-4 pieces: plain and non-ASCII words, \\emph, \\textbf, "
            "$math$); D1 rendered by HTML5, XHTML or both into one directory (both: from two parses or, 1/3, the same "
-           "document object rendered twice); D2 (other jobname; same directory or "
+           "document object rendered twice; 1/4 with the renderers named by package path); D2 (other jobname; same directory or "
            "another one with paux-dirs) goes through plasTeX.Compile.parse with either renderer name and is "
-           "rendered. Non-trivial: >=3 labels and two renderer keys in the file.")
+           "rendered; 2/5: a third document D3 defines a label named like one of D1's and must list it in its own "
+           "file. Non-trivial: >=3 labels and two renderer keys in the file.")
 RULE_TR = ("label sets (quick 0-4 objects, thorough 0-12), renderer HTML5|XHTML, 1/4 with the other renderer's "
            "entry already in the file; EACH CASE IS EXHAUSTIVE over all truncations F[:k], k=0..len(F), of the file "
            "the program wrote (inner loop in the renderer's cleanup hook). Non-trivial: >=1 label (the file has "
